@@ -49,17 +49,17 @@ def mem : Dom K → Env K → Env K → Prop
   | .prod a b, pts, ρ => mem a pts ρ ∧ mem b pts ρ
   | .translate v d t, pts, ρ =>
     -- image of the inner set under q ↦ q + t(row)
-    (∃ q x tx, pts.get v = some [x] ∧ t.f (pts ++ ρ) = [tx] ∧ x = q + tx ∧ mem d [(v, [q])] ρ) ∨
+    (∃ q x tx, pts.get v = some [x] ∧ t.f (pts ++ ρ) = [tx] ∧ x = q + tx ∧ mem d [(v, [q])] (pts.filter (fun b => b.1 != v) ++ ρ)) ∨
     (∃ q1 q2 x y tx ty, pts.get v = some [x, y] ∧ t.f (pts ++ ρ) = [tx, ty] ∧ x = q1 + tx ∧ y = q2 + ty ∧
-        mem d [(v, [q1, q2])] ρ) ∨
+        mem d [(v, [q1, q2])] (pts.filter (fun b => b.1 != v) ++ ρ)) ∨
     (∃ q1 q2 q3 x y z tx ty tz, pts.get v = some [x, y, z] ∧ t.f (pts ++ ρ) = [tx, ty, tz] ∧
-        x = q1 + tx ∧ y = q2 + ty ∧ z = q3 + tz ∧ mem d [(v, [q1, q2, q3])] ρ)
+        x = q1 + tx ∧ y = q2 + ty ∧ z = q3 + tz ∧ mem d [(v, [q1, q2, q3])] (pts.filter (fun b => b.1 != v) ++ ρ))
   | .rotate v d m c, pts, ρ =>
     -- image of the inner set under q ↦ M (q − c) + c
     ∃ q1 q2 x y m00 m01 m10 m11 cx cy, pts.get v = some [x, y] ∧ m.f (pts ++ ρ) = [m00, m01, m10, m11] ∧
       c.f (pts ++ ρ) = [cx, cy] ∧
       x = m00 * (q1 - cx) + m01 * (q2 - cy) + cx ∧ y = m10 * (q1 - cx) + m11 * (q2 - cy) + cy ∧
-      mem d [(v, [q1, q2])] ρ
+      mem d [(v, [q1, q2])] (pts.filter (fun b => b.1 != v) ++ ρ)
   | .bdry _, _, _ => False
   | .bdryL _, _, _ => False
   | .bdryR _, _, _ => False
@@ -74,16 +74,16 @@ def NonDeg : Dom K → Env K → Env K → Prop
   | .union a b, pts, ρ | .cut a b, pts, ρ | .inter a b, pts, ρ | .prod a b, pts, ρ =>
     NonDeg a pts ρ ∧ NonDeg b pts ρ
   | .translate v d t, pts, ρ =>
-    (∀ x tx, pts.get v = some [x] → t.f (pts ++ ρ) = [tx] → NonDeg d [(v, [x - tx])] ρ) ∧
-    (∀ x y tx ty, pts.get v = some [x, y] → t.f (pts ++ ρ) = [tx, ty] → NonDeg d [(v, [x - tx, y - ty])] ρ) ∧
+    (∀ x tx, pts.get v = some [x] → t.f (pts ++ ρ) = [tx] → NonDeg d [(v, [x - tx])] (pts.filter (fun b => b.1 != v) ++ ρ)) ∧
+    (∀ x y tx ty, pts.get v = some [x, y] → t.f (pts ++ ρ) = [tx, ty] → NonDeg d [(v, [x - tx, y - ty])] (pts.filter (fun b => b.1 != v) ++ ρ)) ∧
     (∀ x y z tx ty tz, pts.get v = some [x, y, z] → t.f (pts ++ ρ) = [tx, ty, tz] →
-        NonDeg d [(v, [x - tx, y - ty, z - tz])] ρ)
+        NonDeg d [(v, [x - tx, y - ty, z - tz])] (pts.filter (fun b => b.1 != v) ++ ρ))
   | .rotate v d m c, pts, ρ =>
     ∀ x y m00 m01 m10 m11 cx cy, pts.get v = some [x, y] → m.f (pts ++ ρ) = [m00, m01, m10, m11] →
       c.f (pts ++ ρ) = [cx, cy] →
       m00 * m11 - m01 * m10 ≠ 0 ∧
       NonDeg d [(v, [(m11 * (x - cx) - m01 * (y - cy)) / (m00 * m11 - m01 * m10) + cx,
-                      (m00 * (y - cy) - m10 * (x - cx)) / (m00 * m11 - m01 * m10) + cy])] ρ
+                      (m00 * (y - cy) - m10 * (x - cx)) / (m00 * m11 - m01 * m10) + cy])] (pts.filter (fun b => b.1 != v) ++ ρ)
   | .bdry _, _, _ | .bdryL _, _, _ | .bdryR _, _, _ => True
 
 end TPV.Geom
